@@ -33,6 +33,12 @@ func setHeaders(h http.Handler) http.Handler {
 	})
 }
 
+// SetSecurityHeaders wraps a handler so that every response written through it carries the basic
+// security headers - also the ones a wrapper such as http.TimeoutHandler writes on its own.
+func SetSecurityHeaders(h http.Handler) http.Handler {
+	return setHeaders(h)
+}
+
 // withMethods writes an error response if the method of the request is not included.
 func (p *Authenticator) withMethods(f http.HandlerFunc, methods ...string) http.HandlerFunc {
 	methodMap := make(map[string]struct{}, len(methods))
